@@ -160,6 +160,31 @@ pub fn drive_c14(out: &mut dyn std::io::Write, seed: u64, thorough: bool) {
             }
         }
     }
+    // structured keys: the two key rows equal, and equal except for one word (each of the four positions, both directions)
+    {
+        let half = rng.bytes(16);
+        let mut keys: Vec<Vec<u8>> = vec![[half.clone(), half.clone()].concat(), vec![0u8; 32], vec![0x5au8; 32]];
+        for w in 0..4usize {
+            for side in 0..2usize {
+                let mut k = [half.clone(), half.clone()].concat();
+                k[16 * side + 4 * w + (w % 4)] ^= 0x21;
+                keys.push(k);
+            }
+        }
+        for (ki, key) in keys.iter().enumerate() {
+            let nonce = rng.bytes(if ki % 2 == 0 { 8 } else { 12 });
+            let dr = (ki as u32 * 3) % 11;
+            if let Some(mut g) = G::new(out, key, &nonce, "keystruct") {
+                g.refill4(out, dr);
+                g.getp(out, 0);
+            }
+            if let Some(mut g) = G::new(out, key, &nonce, "keystruct") {
+                for _ in 0..4 {
+                    g.refill(out, dr);
+                }
+            }
+        }
+    }
     // every sequence of three (thorough: four) operations from {refill, refill4, set counter, set stream id}, then a probe
     // (refill4, both parameters, refill): whatever an operation leaves behind - a cached row, a precomputed counter - must
     // not survive the next change of either parameter
